@@ -84,6 +84,19 @@ MUTANTS = [
     ("arc-cfg-branch-in-vm", "C19", "R-BUILD-DIFF", "register_index", "crates/runtime/src/vm.rs",
      "    fn register_index(&self, register: u8) -> usize {\n        self.register_base + register as usize\n    }",
      "    fn register_index(&self, register: u8) -> usize {\n        if cfg!(feature = \"arc\") {\n            return self.register_base.saturating_add(register as usize);\n        }\n        self.register_base + register as usize\n    }"),
+    ("catch-restore-registers-gone", "C04", "R-CATCH-RESTORE", "execute_instructions", "crates/runtime/src/vm.rs",
+     "                        self.registers\n                            .resize(self.min_frame_registers, KValue::Null);\n\n                        self.set_register(catch_point.error_register, catch_value);",
+     "                        self.set_register(catch_point.error_register, catch_value);"),
+    # ---- R-BUILDER-BAL
+    ("builder-string-finish-conditional", "C05", "R-BUILDER-BAL", "compile_string", "crates/bytecode/src/compiler.rs",
+     "                        if let Some(result_register) = result.register {\n                            self.push_op(Op::StringFinish, &[result_register]);\n                        }",
+     "                        if let Some(result_register) = result.register {\n                            if nodes.len() > 2 {\n                                self.push_op(Op::StringFinish, &[result_register]);\n                            }\n                        }"),
+    ("builder-sequence-early-return", "C05", "R-BUILDER-BAL", "compile_multi_assign", "crates/bytecode/src/compiler.rs",
+     "                let temp_register = self.push_register()?;\n\n                for i in 0..nodes_len as u8 {",
+     "                let temp_register = self.push_register()?;\n                if nodes_len == 0 {\n                    return Ok(result);\n                }\n\n                for i in 0..nodes_len as u8 {"),
+    ("builder-try-end-dropped", "C05", "R-BUILDER-BAL", "compile_try_expression", "crates/bytecode/src/compiler.rs",
+     "        self.push_op_without_span(TryEnd, &[dummy_byte]);\n",
+     "        if finally_block.is_some() {\n            self.push_op_without_span(TryEnd, &[dummy_byte]);\n        }\n"),
     # ---- R-NARROW / R-VM-REGS
     ("narrow-match-guard-gone", "C05", "R-NARROW", "compile_match_arm_patterns", "crates/bytecode/src/compiler.rs",
      "        if arm_patterns.len() > i8::MAX as usize {\n            return self.error(ErrorKind::TooManyMatchPatterns(arm_patterns.len()));\n        }\n",
